@@ -22,6 +22,24 @@ def check_maps(names):
         if np.abs(g / fd - 1).max() > 1e-6:
             return dict(reproduced=True, cases=cases, map=nm, clause='derivative_chain factor == d sigma / d p (central differences)',
                         max_rel=float(np.abs(g / fd - 1).max()), how='contracts.c14_concrete.check_maps on the real emg3d.maps classes')
+        # the same medium given with another number type (integer array, Python / NumPy integer scalar, float32) maps to the same values
+        ints = np.array([1, 2, 3, 10, 1000])
+        ref = m.forward(ints.astype(float))
+        for what, val in (('int64 array', ints), ('int32 array', ints.astype(np.int32)), ('list of Python ints', [int(v) for v in ints])):
+            cases += 1
+            got = np.asarray(m.forward(np.asarray(val)), dtype=float)
+            if got.shape != ref.shape or not np.allclose(got, ref, rtol=1e-12, atol=0, equal_nan=False):
+                return dict(reproduced=True, cases=cases, map=nm, clause='forward of integer-typed conductivities equals forward of the same values as floats',
+                            input=what, got=str(got.tolist()), want=str(ref.tolist()), how='contracts.c14_concrete.check_maps')
+            back = np.asarray(m.backward(m.forward(np.asarray(val))), dtype=float)
+            if not np.allclose(back, ints, rtol=1e-9):
+                return dict(reproduced=True, cases=cases, map=nm, clause='backward(forward(sigma)) == sigma for integer-typed conductivities', input=what,
+                            got=str(back.tolist()))
+        for v in (1, 3, np.int64(10)):
+            cases += 1
+            if not np.isclose(float(m.forward(v)), float(m.forward(float(v))), rtol=1e-12, atol=0):
+                return dict(reproduced=True, cases=cases, map=nm, clause='forward of an integer scalar equals forward of the same value as float', value=int(v),
+                            got=float(m.forward(v)), want=float(m.forward(float(v))))
     return dict(reproduced=False, cases=cases)
 
 
